@@ -669,7 +669,9 @@ func c08CandidateConsistency(c *Ctx, p *Program) {
 				asked := canvasKey(fn, call.Call.Args[0])
 				// a parameter of a helper: compare with what the callers pass
 				askedSet := map[string]bool{asked: true}
-				if prm, ok := call.Call.Args[0].(*ssa.Parameter); ok {
+				// the same parameter on both sides is consistent whatever the callers pass
+				sameParam := len(refs) == 1 && refs[asked] && strings.HasPrefix(asked, "param.")
+				if prm, ok := call.Call.Args[0].(*ssa.Parameter); ok && !sameParam {
 					askedSet = map[string]bool{}
 					pi := -1
 					for i, q := range fn.Params {
@@ -707,7 +709,7 @@ func c08CandidateConsistency(c *Ctx, p *Program) {
 			}
 		}
 	}
-	c.Floor("candidate-consistency", n, 4)
+	c.Floor("candidate-consistency", n, 2)
 }
 
 // E5 frame normalisation: the encoder clones, compares and scans canvases through their Pix
